@@ -48,10 +48,10 @@ MANIFEST = {
             "virtual registers per argument, disjoint slots). Vector / by-reference arguments: per-path theorems + temps_ok, not yet in the list theorem.",
     "note": "Model follows the code with fixes C06-1..16 (all in /repo). Trusted: Lean kernel; Spec/ABI.lean and Spec/Machine.lean as the meaning of the ABIs / of "
             "the mov family; the FuncFrame facts (dirty/preserved masks, SA register/offsets) are inputs taken from the real frame (C07); the "
-            "harness/driver diff. Open finding C06-K9 (an int32 register for an int64 register parameter of an invoke is zero- instead of sign-extended; what fix C06-17 left). Not claimed: mmx on 32-bit, 64-bit integers under GCC regparm, call-site marshalling inside the "
-            "register allocator (C05: the allocator's own moves are only judged by the machine monitor), a64 invoke lowering, shuffle_correct for stack destinations / non-integer groups without the selection hypothesis, byte overlap of stack slots (movaps stores 16 bytes for a float).",
+            "harness/driver diff. Open findings C06-K9 (x86 invoke: int32 register for an int64 register parameter not sign-extended; proposed fixes/C06-20), C06-K10 (AArch64 invoke: stack arguments stored in the register's width - on Apple arm64 past the call area into the caller's locals; proposed fixes/C06-21), C06-K11 (AArch64 invoke: narrower registers never extended). Not claimed: mmx on 32-bit, 64-bit integers under GCC regparm, call-site marshalling inside the "
+            "register allocator (C05: the allocator's own moves are only judged by the machine monitor), theorems for the AArch64 invoke lowering beyond a64_imm_value / store8_first_and_overflow, vector / by-reference arguments in the list theorem, shuffle_correct for stack destinations / non-integer groups without the selection hypothesis, byte overlap of stack slots (movaps stores 16 bytes for a float).",
 }
-MODS = ["AsmjitVerif.Props.C06", "AsmjitVerif.Props.C06Invoke", "AsmjitVerif.Props.C06InvokeList"]
+MODS = ["AsmjitVerif.Props.C06", "AsmjitVerif.Props.C06Invoke", "AsmjitVerif.Props.C06InvokeList", "AsmjitVerif.Props.C06InvokeA64"]
 
 INTS = [32, 33, 34, 35, 36, 37, 38, 39, 40, 41]
 FLTS = [42, 43]
@@ -220,7 +220,8 @@ def run(res):
         "invoke lowering (x86rapass.cpp on_before_invoke + move_* helpers): Model/InvokeLower.lean tied by correspondence on the lowering's "
         "instructions and the frame's call-stack numbers; every real post-RA instruction list is judged by Spec/InvokeMachine.lean; on an "
         "x86-64 host the calls are additionally executed (SysV caller, SysV / Microsoft x64 callee stub) and the received arguments compared; "
-        "the register allocator itself is C05's; a64rapass.cpp has no by-reference temporaries / 64-bit immediate split and is not driven"]
+        "the register allocator itself is C05's; AArch64 (a64rapass.cpp; AAPCS64 and Apple arm64): the same `iv` op through a64::Compiler, "
+        "correspondence with a64LowerValue and a byte-granular machine (Spec/InvokeMachineA64.lean) on the real lists; not executed"]
     broken = []
     ok, out = vlib.lean_stage(res, PID, MODS)
     if not ok and not res.violations:
